@@ -22,6 +22,8 @@ type FlvCache struct {
 	videoSequenceHeader *flv.Tag
 	// cached aideo sequence header
 	audioSequenceHeader *flv.Tag
+	// timestamp of the latest media tag: the stream's current time
+	lastTimestamp uint32
 }
 
 // NewFlvCache 创建FlvCache实例
@@ -51,6 +53,7 @@ func (cache *FlvCache) CachePack(pack Pack) bool {
 		return false
 	}
 
+	cache.lastTimestamp = tag.Timestamp
 	keyframe := tag.IsH2645KeyFrame()
 	if cache.cacheGop { // 如果启用 FlvCache
 		if keyframe { // 关键帧，重置GOP
@@ -71,6 +74,7 @@ func (cache *FlvCache) Reset() {
 	cache.metaData = nil
 	cache.videoSequenceHeader = nil
 	cache.audioSequenceHeader = nil
+	cache.lastTimestamp = 0
 }
 
 // PushTo 入列到指定的队列
@@ -81,7 +85,9 @@ func (cache *FlvCache) PushTo(q *queue.SyncQueue) int {
 	bytes := 0
 
 	gop := cache.gop.Elems()
-	initTimestamp := uint32(0)
+	// 没有缓存 GOP 时，序列头使用流的当前时间（最近一个媒体 Tag 的时间戳）而不是 0：
+	// 否则 flv.Writer 以 0 为基准，运行超过 2^31 毫秒的流的所有 Tag 都会被当作“早于第一个 Tag”
+	initTimestamp := cache.lastTimestamp
 	if len(gop) > 0 {
 		tag := gop[0].(*flv.Tag)
 		initTimestamp = tag.Timestamp
